@@ -139,6 +139,22 @@ func canBeMapKey(in []reflect.Type) (bool, func([]reflect.Value) bool) {
 	}
 }
 
+// memoizeKeyCheck returns the run-time test that decides if a tuple of inputs can
+// be used as a cache key.  Providers that matched a static prototype carry one
+// already; for per-invocation providers it is derived here, and inputs whose
+// types can never be map keys (slices, maps, funcs) are never cached: the
+// function is called each time instead.
+func memoizeKeyCheck(fm *provider) func([]reflect.Value) bool {
+	if fm.mapKeyCheck != nil {
+		return fm.mapKeyCheck
+	}
+	ok, check := canBeMapKey(typesIn(getReflectType(fm.fn)))
+	if !ok {
+		return func([]reflect.Value) bool { return false }
+	}
+	return check
+}
+
 func generateLookup(fm *provider, fv canCall, numInputs int) cacherFunc {
 	if fm.memoized {
 		return generateCache(fm.id, fv, numInputs, fm.mapKeyCheck)
